@@ -9,8 +9,8 @@ Local Open Scope N_scope.
    caller sees of document 2 and of a fresh parse changes; with [sh = false] (the code as it is) nothing does. *)
 Definition d6_prefix : list (nat * iop) :=
   [(1%nat, OpNewDoc); (2%nat, OpNewDoc);
-   (1%nat, OpParse 11%nat [TAO; TNull; TInt 1; TAC]);
-   (2%nat, OpParse 21%nat [TDO; TName 75; TAO; TNull; TInt 2; TAC; TDC])].
+   (1%nat, OpParse 11%nat [ItAO; ItNull; ItInt 1; ItAC]);
+   (2%nat, OpParse 21%nat [ItDO; ItName 75; ItAO; ItNull; ItInt 2; ItAC; ItDC])].
 Definition d6_op : iop := OpMakeInd (ERoot 11%nat, [SIdx 0%nat]).
 Definition d6_world (sh : bool) : world := snd (run_hist sh world0 d6_prefix).
 
@@ -315,7 +315,7 @@ Proof.
     destruct (IH _ _ _ _ (ok_wf _ _ _ O2 W) (Forall_cons _ (frame_add_in _ _ _ _ Hf I2 Ef) Hst) H0) as [O3 I3].
     split; [eapply ok_trans; eauto|auto]. }
   simpl in H. destruct t.
-  - (* TNull *)
+  - (* ItNull *)
     destruct stack as [|f st]; [discriminate|]. unfold parsed_null in H.
     destruct (halloc w a null_cell) as [w2 l2] eqn:Ea.
     destruct (halloc_ok' a w _ _ _ (closed_nokids a HNull _ _ eq_refl) Ea) as [O2 I2].
@@ -326,12 +326,12 @@ Proof.
     split; [eapply ok_trans; eauto|auto].
   - apply (Hscalar (HBool b)); auto.
   - apply (Hscalar (HInt z)); auto.
-  - (* TName *)
+  - (* ItName *)
     destruct stack as [|f st]; [discriminate|].
     destruct (f_kind f) eqn:Ek; try (apply (Hscalar (HName k)); auto; fail).
     inversion S as [|? ? Hf Hst]; subst. eapply IH; [exact W| |exact H].
     constructor; auto; destruct Hf; split; auto.
-  - (* TRef *)
+  - (* ItRef *)
     destruct ctx; [|discriminate]. destruct stack as [|f st]; [discriminate|].
     destruct (obj_for_parser w a id) as [w2 l2] eqn:Eo.
     destruct (obj_for_parser_ok _ _ _ _ _ W Eo) as [O2 I2].
@@ -339,8 +339,8 @@ Proof.
     inversion S as [|? ? Hf Hst]; subst.
     destruct (IH _ _ _ _ (ok_wf _ _ _ O2 W) (Forall_cons _ (frame_add_in _ _ _ _ Hf I2 Ef) Hst) H) as [O3 I3].
     split; [eapply ok_trans; eauto|auto].
-  - (* TAO *) eapply IH; [exact W| |exact H]. constructor; auto; split; constructor.
-  - (* TAC *)
+  - (* ItAO *) eapply IH; [exact W| |exact H]. constructor; auto; split; constructor.
+  - (* ItAC *)
     destruct stack as [|f st]; [discriminate|]. destruct (f_kind f); try discriminate.
     inversion S as [|? ? [Ho Hd] S']; subst.
     assert (Hels : Forall (in_a a) (rev' (f_olist f))).
@@ -356,8 +356,8 @@ Proof.
       inversion S' as [|? ? Hf Hst]; subst.
       destruct (IH _ _ _ _ (ok_wf _ _ _ O2 W) (Forall_cons _ (frame_add_in _ _ _ _ Hf I2 Ef) Hst) H) as [O3 I3].
       split; [eapply ok_trans; eauto|auto].
-  - (* TDO *) eapply IH; [exact W| |exact H]. constructor; auto; split; constructor.
-  - (* TDC *)
+  - (* ItDO *) eapply IH; [exact W| |exact H]. constructor; auto; split; constructor.
+  - (* ItDC *)
     destruct stack as [|f st]; [discriminate|]. destruct (f_kind f); try discriminate.
     inversion S as [|? ? [Ho Hd] S']; subst.
     assert (Hv : closed_cell a (mkCell (HDict (f_dict f)) ctx 0)).
@@ -730,17 +730,17 @@ Proof.
   intros V W. unfold parse_fresh, probe_world, parse_obj.
   destruct toks as [|t r]; [reflexivity|].
   destruct t; try reflexivity.
-  - pose proof (parse_toks_view O (TAO :: r) w w' [] V W (Forall_nil _)) as H.
-    destruct (parse_toks false None 0 w [] (TAO :: r)) as [[w1 l1]|] eqn:E1;
-      destruct (parse_toks false None 0 w' [] (TAO :: r)) as [[w1' l1']|] eqn:E2; try contradiction; auto.
+  - pose proof (parse_toks_view O (ItAO :: r) w w' [] V W (Forall_nil _)) as H.
+    destruct (parse_toks false None 0 w [] (ItAO :: r)) as [[w1 l1]|] eqn:E1;
+      destruct (parse_toks false None 0 w' [] (ItAO :: r)) as [[w1' l1']|] eqn:E2; try contradiction; auto.
     destruct H as [-> V1].
-    destruct (parse_toks_ok None O (TAO :: r) w [] w1 l1 W (Forall_nil _) E1) as [O1 I1].
+    destruct (parse_toks_ok None O (ItAO :: r) w [] w1 l1 W (Forall_nil _) E1) as [O1 I1].
     unfold unparse_h. rewrite (view_cog O w1 w1' l1 V1 I1), (unparse_res_view O w1 w1' V1 (ok_wf _ _ _ O1 W) _ _ I1). reflexivity.
-  - pose proof (parse_toks_view O (TDO :: r) w w' [] V W (Forall_nil _)) as H.
-    destruct (parse_toks false None 0 w [] (TDO :: r)) as [[w1 l1]|] eqn:E1;
-      destruct (parse_toks false None 0 w' [] (TDO :: r)) as [[w1' l1']|] eqn:E2; try contradiction; auto.
+  - pose proof (parse_toks_view O (ItDO :: r) w w' [] V W (Forall_nil _)) as H.
+    destruct (parse_toks false None 0 w [] (ItDO :: r)) as [[w1 l1]|] eqn:E1;
+      destruct (parse_toks false None 0 w' [] (ItDO :: r)) as [[w1' l1']|] eqn:E2; try contradiction; auto.
     destruct H as [-> V1].
-    destruct (parse_toks_ok None O (TDO :: r) w [] w1 l1 W (Forall_nil _) E1) as [O1 I1].
+    destruct (parse_toks_ok None O (ItDO :: r) w [] w1 l1 W (Forall_nil _) E1) as [O1 I1].
     unfold unparse_h. rewrite (view_cog O w1 w1' l1 V1 I1), (unparse_res_view O w1 w1' V1 (ok_wf _ _ _ O1 W) _ _ I1). reflexivity.
 Qed.
 
